@@ -1004,9 +1004,26 @@ func (n *node) sendEnterQuiesceMessages() {
 	}
 }
 
-func (n *node) sendMessages(msgs []pb.Message) {
-	for _, msg := range msgs {
-		if !isFreeOrderMessage(msg) {
+// canSendBeforeSave returns whether the specified message of the update can be
+// sent before the update is saved. A Replicate message carrying a commit index
+// that covers entries the local replica still has to save must wait for the
+// save: such a commit index is only possible when the local replica forms the
+// quorum on its own (a single voting member replicating to non-voting members
+// or witnesses), nothing it covers is durable anywhere until the save is done.
+func canSendBeforeSave(ud pb.Update, m pb.Message) bool {
+	if !isFreeOrderMessage(m) {
+		return false
+	}
+	if m.Type == pb.Replicate && len(ud.EntriesToSave) > 0 &&
+		m.Commit >= ud.EntriesToSave[0].Index {
+		return false
+	}
+	return true
+}
+
+func (n *node) sendMessages(ud pb.Update) {
+	for _, msg := range ud.Messages {
+		if !canSendBeforeSave(ud, msg) {
 			msg.ShardID = n.shardID
 			n.sendRaftMessage(msg)
 		}
@@ -1015,7 +1032,7 @@ func (n *node) sendMessages(msgs []pb.Message) {
 
 func (n *node) sendReplicateMessages(ud pb.Update) {
 	for _, msg := range ud.Messages {
-		if isFreeOrderMessage(msg) {
+		if canSendBeforeSave(ud, msg) {
 			msg.ShardID = n.shardID
 			n.sendRaftMessage(msg)
 		}
@@ -1105,7 +1122,7 @@ func (n *node) processRaftUpdate(ud pb.Update) error {
 	if err := n.logReader.Append(ud.EntriesToSave); err != nil {
 		return err
 	}
-	n.sendMessages(ud.Messages)
+	n.sendMessages(ud)
 	if err := n.removeLog(); err != nil {
 		return err
 	}
